@@ -101,35 +101,26 @@ func zzNewURI(name string, o zzURIOpt) zzURI {
 	zz.Assume(zz.Implies(colon == "", port == ""))
 	u.host = lit + colon + port
 	if u.relative {
-		zz.Assume(u.host != "") // "///p" is a path, not an empty authority
+		zz.Assume(lit != "") // "///p" is a path, not an empty authority
 	}
-	pslash := zz.StringEx(name+".pslash", 1, zzAllBut("/"))
-	prest := zz.StringEx(name+".prest", 5, zzC11ExPath)
-	zz.Assume(zz.Implies(pslash == "", prest == ""))
-	u.path = pslash + prest
-	qmark := ""
+	u.path = zz.StringEx(name+".path", 6, zzC11ExPath)
+	zz.Assume(zz.Or(u.path == "", strings.HasPrefix(u.path, "/")))
 	if o.kvQuery {
 		if zz.Choice(name+".hasquery", 2) == 1 {
-			qmark = "?"
 			u.query = "a=" + zz.StringEx(name+".qval", 4, zzAllBut(zzC11Unres))
 		}
 	} else {
-		qmark = zz.StringEx(name+".qmark", 1, zzAllBut("?"))
-		u.query = zz.StringEx(name+".query", 6, zzC11ExQuery)
-		zz.Assume((qmark == "") == (u.query == "")) // no bare "?" (ForceQuery)
+		u.query = zz.StringEx(name+".query", 6, zzC11ExQuery) // "" = no query (a bare "?" is outside the structured encoding)
 	}
-	hmark := ""
 	if !o.noFrag {
-		hmark = zz.StringEx(name+".hmark", 1, zzAllBut("#"))
-		u.frag = zz.StringEx(name+".frag", 4, zzC11ExFrag)
-		zz.Assume(zz.Implies(hmark == "", u.frag == ""))
+		u.frag = zz.StringEx(name+".frag", 4, zzC11ExFrag) // "" = no fragment (a bare "#" is outside the structured encoding)
 	}
-	if u.relative {
-		u.raw = "//" + u.host + u.path + qmark + u.query + hmark + u.frag
-	} else {
-		u.raw = u.scheme + "://" + u.host + u.path + qmark + u.query + hmark + u.frag
+	pre := "//"
+	if !u.relative {
+		pre = u.scheme + "://"
 	}
-	zz.DeclareURLHost(u.raw, u.scheme, u.host, u.hostname, u.path, u.query, u.frag)
+	u.raw = pre + lit + colon + port + u.path + zz.IteStr(u.query == "", "", "?"+u.query) + zz.IteStr(u.frag == "", "", "#"+u.frag)
+	zz.DeclareURLParts(u.raw, u.scheme, lit, colon+port, u.path, u.query, u.frag)
 	return u
 }
 
